@@ -367,14 +367,88 @@ def random_circle(rng, center=(0, 0), size=10.0, cw=False):
     return spec, {"family": "circle", "n": n}
 
 
+def random_bulged_rect(rng, center=(0, 0), size=10.0, cw=False, num="float"):
+    """Axis-aligned rectangle some of whose sides are replaced by one quadratic or cubic arc
+    bulging outwards (or slightly inwards): the chord of each arc is axis-parallel and is an
+    edge of the arc's control-point box."""
+    cx, cy = float(center[0]), float(center[1])
+    w, h = size * rng.uniform(0.6, 1.0), size * rng.uniform(0.4, 1.0)
+    grid = 8
+
+    def q(v):
+        return Fr(round(v * grid), grid)
+
+    x0, x1, y0, y1 = q(cx - w), q(cx + w), q(cy - h), q(cy + h)
+    corners = [(x0, y0), (x1, y0), (x1, y1), (x0, y1)]
+    normals = [(0, -1), (1, 0), (0, 1), (-1, 0)]
+    segs = []
+    ncurved = 0
+    for i in range(4):
+        a, b = corners[i], corners[(i + 1) % 4]
+        kind = rng.choice(["line", "quad", "quad", "cubic"])
+        if i == 3 and ncurved == 0:
+            kind = "quad"
+        if kind == "line":
+            segs.append([a, b])
+            continue
+        ncurved += 1
+        side = abs(b[0] - a[0]) + abs(b[1] - a[1])
+        depth = q(float(side) * (rng.uniform(0.15, 0.7) if rng.random() < 0.75 else -rng.uniform(0.05, 0.15)))
+        nx, ny = normals[i]
+        if kind == "quad":
+            m = ((a[0] + b[0]) / 2 + nx * depth, (a[1] + b[1]) / 2 + ny * depth)
+            segs.append([a, m, b])
+        else:
+            p1 = (a[0] + (b[0] - a[0]) / 3 + nx * depth, a[1] + (b[1] - a[1]) / 3 + ny * depth)
+            p2 = (a[0] + 2 * (b[0] - a[0]) / 3 + nx * depth, a[1] + 2 * (b[1] - a[1]) / 3 + ny * depth)
+            segs.append([a, p1, p2, b])
+    return ctrl_spec(segs, num, cw), {"family": "bulged-rect"}
+
+
+def random_lens(rng, center=(0, 0), size=10.0, cw=False, num="float"):
+    """Closed curve with two segments only: a half disk (chord + arc) or a lens (two arcs)."""
+    cx, cy = float(center[0]), float(center[1])
+    grid = 8
+
+    def q(v):
+        return Fr(round(v * grid), grid)
+
+    ang = rng.uniform(0, math.tau) if rng.random() < 0.6 else rng.choice([0.0, math.pi / 2])
+    dx, dy = math.cos(ang) * size, math.sin(ang) * size
+    a = (q(cx - dx), q(cy - dy))
+    b = (q(cx + dx), q(cy + dy))
+    nx, ny = -(b[1] - a[1]), (b[0] - a[0])   # left normal of a->b (length = chord length)
+
+    def arc(p, r, depth, degree):
+        # arc from p to r bulging to the right of p->r by depth * |pr|
+        ex, ey = r[0] - p[0], r[1] - p[1]
+        rx, ry = ey, -ex
+        d = Fr(depth).limit_denominator(64)
+        if degree == 2:
+            return [p, ((p[0] + r[0]) / 2 + rx * d, (p[1] + r[1]) / 2 + ry * d), r]
+        return [p, (p[0] + ex / 3 + rx * d, p[1] + ey / 3 + ry * d), (p[0] + 2 * ex / 3 + rx * d, p[1] + 2 * ey / 3 + ry * d), r]
+
+    lower = arc(a, b, rng.uniform(0.2, 0.6), rng.choice([2, 3]))          # bulges to the right of a->b
+    if rng.random() < 0.5:
+        upper = [b, a]                                                     # half disk
+    else:
+        upper = arc(b, a, rng.uniform(0.2, 0.6), rng.choice([2, 3]))       # lens
+    return ctrl_spec([lower, upper], num, cw), {"family": "lens"}
+
+
 def random_simple(rng, num=None, curved=None, center=(0, 0), size=10.0, cw=False):
     """A random SimpleShape spec.  num in int/frac/float; curved only with float."""
     if curved is None:
         curved = rng.random() < 0.3
     if curved:
-        if rng.random() < 0.5:
+        r = rng.random()
+        if r < 0.4:
             return random_circle(rng, center, size, cw)
-        return random_blob(rng, center, size, cw=cw)
+        if r < 0.8:
+            return random_blob(rng, center, size, cw=cw)
+        if r < 0.92:
+            return random_bulged_rect(rng, center, size, cw)
+        return random_lens(rng, center, size, cw)
     num = num or rng.choice(["int", "frac", "float"])
     return random_polygon(rng, num, center, size, cw=cw)
 
